@@ -75,6 +75,8 @@ func (this *minerRefundExecutor) Execute(transaction *types.Transaction, header 
 	refundInfo, ok := refundInfos[refundHeight]
 	if ok {
 		refundInfo.AddRefundInfo(addr, money)
+		// RefundInfoList is a value: store the grown list back, or a second account's refund is lost
+		refundInfos[refundHeight] = refundInfo
 	} else {
 		refundInfo = types.RefundInfoList{}
 		refundInfo.AddRefundInfo(addr, money)
